@@ -59,15 +59,28 @@ def rebase_line(line: Dict) -> Dict:
         return w if -LIM <= w <= LIM else -999999999
 
     out = dict(line)
+    if out.get("kind") == "readbackg":      # rows of the harness' own making are small; never rebased
+        out["kind"] = "readback"
+        out.pop("given", None)
     out["ref"] = {"id": line["ref"]["id"], "len": f(line["ref"]["len"]), "x": [f(v) for v in xs]}
     rec = dict(line["rec"])
-    for k in ("rs", "re", "rlen"):
+    for k in ("rs", "re"):
         rec[k] = f(rec[k])
+    # RefLen is only ever compared with the reference length and with its own read-back value: when the written value is
+    # far from the reference's coordinates (so certainly not the reference length) it gets a base of its own, chosen so
+    # that the encoded value stays different from the encoded reference length; written and read-back value share it
+    Bl = B
+    if not -LIM <= rec["rlen"] - B <= LIM:
+        Bl = (rec["rlen"] // 10 ** 7) * 10 ** 7
+        if rec["rlen"] - Bl == out["ref"]["len"]:
+            Bl -= 10 ** 8
+    rec["rlen"] = f(rec["rlen"], Bl)
     out["rec"] = rec
     if "rb" in line:
         rb = dict(line["rb"])
-        for k in ("rs", "re", "rlen"):
+        for k in ("rs", "re"):
             rb[k] = f(rb[k], B // 10)
+        rb["rlen"] = f(rb["rlen"], Bl // 10)
         rb["rpos"] = [f(v) for v in rb["rpos"]]
         out["rb"] = rb
     out["rebased_by_deci_bp"] = B
